@@ -82,6 +82,8 @@ func main() {
 		h.GenLmtp(rng, thorough, emit)
 	case "c09":
 		h.GenC09(rng, thorough, emit)
+	case "c11":
+		h.GenC11(rng, thorough, emit)
 	case "c12":
 		h.GenC12(rng, thorough, emit)
 	case "tls":
